@@ -10,6 +10,7 @@ in `Props/C11.lean`: each name owns its own router state.
 -/
 import SeliumModel.Lemmas.PubSubHealthy
 import SeliumModel.Lemmas.PubSubOrder
+import SeliumModel.Lemmas.System
 
 namespace Selium.Route
 open Selium.Sink
@@ -134,6 +135,52 @@ example : (exec exHistory).accepted = [7, 8] ∧ (exec exHistory).sinks.map (·.
 
 end Selium.Route
 
+/-! ## Every topic of a running server, and no other topic
+
+`Server/System.lean` composes `handle_stream`'s registry with one router per name. -/
+namespace Selium.Server
+open Selium.Route Selium.Sink
+
+/-- The fan-out theorem holds for every topic of a whole server, whatever else the server is doing: in any history
+    of streams being opened (for any names, roles, valid or not), routers being polled and shutdown, each
+    subscriber of topic `n` has been handed exactly the run of messages `n`'s router accepted since its
+    registration — each once, in order. -/
+theorem c01_every_topic_of_the_server (history : List SEvent) (n : Name) :
+    (∀ k ∈ ((sysExec history).ps n).sinks,
+        k.regAt ≤ ((sysExec history).ps n).accepted.length ∧
+        k.got ++ ((sysExec history).ps n).buffered.toList = ((sysExec history).ps n).accepted.drop k.regAt) ∧
+    (∀ k ∈ ((sysExec history).ps n).evicted, k.got <+: ((sysExec history).ps n).accepted.drop k.regAt) := by
+  rw [sys_ps_is_router]; exact c01_exactly_once_in_order _
+
+/-- "… and to no subscriber of any other topic." The router state of topic `n` — its publishers, what it accepted,
+    and everything each of its subscribers was handed — is the same as in the history from which every event that
+    does not mention `n` was deleted: whatever is published, registered, polled or failing under another name
+    reaches no subscriber of `n`, and nothing addressed to `n` is diverted elsewhere. -/
+theorem c01_no_other_topic_interferes (history : List SEvent) (n : Name) :
+    (sysExec history).ps n = (sysExec (history.filter (mentions n))).ps n :=
+  (sys_topic_independent n history).2.1
+
+/-- A message only ever enters the router of the name its publisher registered on: the events a topic's router sees
+    are the registrations whose first frame named it (and were accepted), its own polls, and shutdown. -/
+theorem c01_topic_router_sees_only_its_own_events (history : List SEvent) (n : Name) :
+    (sysExec history).ps n = Route.exec (psEvents n [] history) := sys_ps_is_router n history
+
+/-! Non-vacuity: two topics on one server; a publisher and a subscriber on each; what is published on one is
+    handed to that topic's subscriber only. -/
+def nameA : Name := { ns := [97, 97, 97], tp := [120, 120, 120] }
+def nameB : Name := { ns := [97, 97, 97], tp := [121, 121, 121] }
+def exServer : List SEvent :=
+  [.openStream (some (.register .subscriber nameA)) { id := 0 } [],
+   .openStream (some (.register .subscriber nameB)) { id := 0 } [],
+   .openStream (some (.register .publisher nameA)) { id := 0 } [.item (.msg none 1), .item (.msg none 2)],
+   .openStream (some (.register .publisher nameB)) { id := 0 } [.item (.msg none 7)],
+   .pollPubsub nameA 20 [], .pollPubsub nameB 20 [], .pollPubsub nameA 20 [], .pollPubsub nameB 20 []]
+
+example : ((sysExec exServer).ps nameA).sinks.map (·.got) = [[.msg none 1, .msg none 2]] ∧
+    ((sysExec exServer).ps nameB).sinks.map (·.got) = [[.msg none 7]] := by decide +kernel
+
+end Selium.Server
+
 #print axioms Selium.Route.c01_exactly_once_in_order
 #print axioms Selium.Route.c01_poll_preserves
 #print axioms Selium.Route.c01_nothing_left_behind
@@ -143,3 +190,6 @@ end Selium.Route
 #print axioms Selium.Route.c01_ended_publisher_fully_accepted
 #print axioms Selium.Route.exec_snoc
 #print axioms Selium.Route.c01_subscriber_gets_all_of_an_ended_publisher
+#print axioms Selium.Server.c01_every_topic_of_the_server
+#print axioms Selium.Server.c01_no_other_topic_interferes
+#print axioms Selium.Server.c01_topic_router_sees_only_its_own_events
